@@ -117,7 +117,8 @@ def units(tier, seed=0):
     for spec in cmpu.CMP_LISTS[tier]:
         txt, L = cmpu.c_unit(spec)
         cxx = cmpu.cxx_tu(spec)
-        for name, h, key, props in cmpu.CMP_UNITS:
+        allbytes = all(q.kind in 'pc' and q.elem == 'u' and q.size == 1 for q in L.params)
+        for name, h, key, props in cmpu.CMP_UNITS + (cmpu.CMP_UNITS_BYTES if allbytes else []):
             us.append(dict(id='cmp.%s.%s' % (L.tag, name), tu='cmp_' + L.tag, gen=cxx, template_text=txt, vars={}, entry=h,
                            enforce=('@F{%s}' % cmpu.RXC[key]) if key else None, replace=[], props=props, layer='elementTraits.hpp/reference.hpp',
                            kind='bounded(span items <= 3, loops unwound 32 times)', unwind=32, config='comparison: ' + spec,
